@@ -275,21 +275,41 @@ def gated_logger(handler):
 
 class FaultyListener(object):
     """the server's listener socket, whose accept() fails once on demand (`arm(errno)`): an event of the environment the
-    harness cannot produce otherwise without really running the process out of descriptors"""
+    harness cannot produce otherwise without really running the process out of descriptors.
+
+    accept() BLOCKS exactly as the socket's own accept() does - for as long as the socket's timeout says, for ever on a listener
+    without one (a unix listener), and a listener closed under a blocked accept() does not wake it (only a connection or
+    shutdown() does) - because whether close() gets the accept loop out of a blocked accept() is part of what is checked.
+    Only an armed fault wakes it early, through a pipe of the wrapper's own (`extra_fds` descriptors the accounting knows)."""
+    extra_fds = 2
+
     def __init__(self, sock):
         self._sock = sock
         self._fail = None
         self.failed = 0
+        self._wake_r, self._wake_w = os.pipe()
+        os.set_blocking(self._wake_r, False)
 
     def arm(self, e):
         self._fail = e
+        try:
+            os.write(self._wake_w, b"x")
+        except OSError:
+            pass
 
     def disarm(self):
         self._fail = None
 
+    def release(self):
+        """the harness is done with the server: give the pipe back"""
+        for fd in (self._wake_r, self._wake_w):
+            try:
+                os.close(fd)
+            except OSError:
+                pass
+        self._wake_r = self._wake_w = -1
+
     def accept(self):
-        # what `socket.accept()` does (block for at most the socket's timeout), in slices, so that an armed error is delivered at
-        # once whatever the timeout (a unix listener has none: its accept() would sit there until the next connection)
         timeout = self._sock.gettimeout()
         t0 = time.time()
         while True:
@@ -297,11 +317,26 @@ class FaultyListener(object):
             if e is not None:
                 self.failed += 1
                 raise OSError(e, os.strerror(e))
-            try:
-                r, _, _ = select.select([self._sock], [], [], 0.03)
-            except (ValueError, OSError):
-                raise OSError(errno.EBADF, os.strerror(errno.EBADF))      # the listener has been closed
-            if r:
+            left = None if timeout is None else max(0.0, timeout - (time.time() - t0))
+            fd = self._sock.fileno()
+            if fd < 0:
+                raise OSError(errno.EBADF, os.strerror(errno.EBADF))      # the listener was closed before this call
+            # poll(), not select(): the descriptors may be numbered beyond FD_SETSIZE (the high-descriptor scenario)
+            p = select.poll()
+            p.register(fd, select.POLLIN)
+            if self._wake_r >= 0:
+                p.register(self._wake_r, select.POLLIN)
+            r = dict(p.poll(None if left is None else left * 1000.0))
+            if r.get(fd, 0) & select.POLLNVAL:
+                raise OSError(errno.EBADF, os.strerror(errno.EBADF))
+            if self._wake_r in r:
+                try:
+                    os.read(self._wake_r, 64)
+                except OSError:
+                    pass
+                if fd not in r:
+                    continue
+            if fd in r:
                 return self._sock.accept()
             if timeout is not None and time.time() - t0 >= timeout:
                 raise socket.timeout("timed out")
@@ -472,6 +507,7 @@ class InProcBackend(object):
             self.srv.poll_object = PollRecorder(self.srv.poll_object)
         self.spawn_fail = [0]
         self.srv.listener = FaultyListener(self.srv.listener)
+        self.base_fds += FaultyListener.extra_fds
         self.nfaults = 0
         self.thread = self.srv._start_in_thread()
         self.saved_fd0 = None
@@ -568,6 +604,11 @@ class InProcBackend(object):
         for t in self.close_threads:
             t.join(2)
         self.thread.join(2)
+        if self.thread.is_alive():
+            # an accept loop that close() did not get out of a blocked accept(): an armed fault does, now that nobody looks
+            self.srv.listener.arm(errno.EBADF)
+            self.thread.join(2)
+        self.srv.listener.release()
         if self.saved_fd0 is not None:
             try:
                 os.dup2(self.saved_fd0, 0)
@@ -748,6 +789,7 @@ def forking_child_main(argv):
             return 2
         base += len(plugs)
     srv.listener = FaultyListener(srv.listener)
+    base += FaultyListener.extra_fds
     state = dict(returned=False, close=None, faults=0, failfork=0)
     real_fork = os.fork
 
@@ -897,13 +939,29 @@ class Client(object):
             return "connect-failed:%s" % errno.errorcode.get(ex.errno, ex.errno)
         s.settimeout(None)
         self.sock, self.open = s, True
+        def first_bytes(data):
+            # the server may let go of this connection between the TCP handshake and the client's first bytes (a one-shot
+            # server that is done, a server being closed, a listener's backlog): the client then sees a reset - an
+            # observation about the server like the ones above, not trouble of the harness
+            try:
+                s.sendall(data)
+                return True
+            except (ConnectionResetError, ConnectionAbortedError, BrokenPipeError, socket.timeout):
+                self.sock, self.open = None, False
+                try:
+                    s.close()
+                except Exception:  # noqa
+                    pass
+                return False
         if self.sess.auth and cred in ("g", "b", "e"):
-            s.sendall(b"X" if cred == "b" else b"A")
+            if not first_bytes(b"X" if cred == "b" else b"A"):
+                return "reset"
         if cred == "e":
             # the service's on_connect asks this client for its root (request seq 0): the answer is an exception reply naming a
             # BaseException class
             self.nexc = getattr(self, "nexc", 0)
-            s.sendall(peer_exception_frame(0, self.k))
+            if not first_bytes(peer_exception_frame(0, self.k)):
+                return "reset"
         elif "occ" in self.sess.opts and cred == "g":
             # a well-behaved client answers what the service's on_connect asks (the client library does that in connect())
             conn = self.wrap()
